@@ -32,6 +32,7 @@ const (
 	QFill                        // A: event size; write events until the queue reports an error
 	QAvail                       // reader Available (inside a reader transaction)
 	QWritePart                   // A: bytes, B: chunking; Write without Next: the event stays unfinished
+	QFillFlush                   // A: event size; write one event and Flush, until the queue reports an error
 )
 
 // Chunking modes of QWrite.
@@ -44,7 +45,7 @@ const (
 )
 
 var opNames = map[OpKind]string{QWrite: "W", QFlush: "Flush", QBegin: "RBegin", QNext: "RNext", QRead: "RRead", QDone: "RDone",
-	QAck: "ACK", QReopen: "Reopen", QReadAll: "ReadAll", QFinish: "Finish", QFill: "Fill", QAvail: "Avail", QWritePart: "WPart"}
+	QAck: "ACK", QReopen: "Reopen", QReadAll: "ReadAll", QFinish: "Finish", QFill: "Fill", QAvail: "Avail", QWritePart: "WPart", QFillFlush: "FillFlush"}
 
 // Op is one queue operation.
 type Op struct {
@@ -59,7 +60,7 @@ func (o Op) String() string {
 		return fmt.Sprintf("W(%d,c%d)", o.A, o.B)
 	case QWritePart:
 		return fmt.Sprintf("WPart(%d,c%d)", o.A, o.B)
-	case QRead, QAck, QFill:
+	case QRead, QAck, QFill, QFillFlush:
 		return fmt.Sprintf("%s(%d)", opNames[o.K], o.A)
 	}
 	return opNames[o.K]
@@ -267,9 +268,46 @@ func (e *Env) writerErr(what string, err error) {
 	if IsFull(err) || e.tight() {
 		e.Full++
 		e.obs("%s=full", what)
+		e.checkStuck(what)
 		return
 	}
 	e.violate("queue/error/"+what, "%s failed although the file is not full: %v", what, err)
+}
+
+// checkStuck: "after space is freed the buffered events are flushed by a
+// later call". When every flushed event has been ACKed the queue holds only
+// its header and last page; if the buffered events need less than half of the
+// remaining file, a 'full' error means the file can no longer be used.
+func (e *Env) checkStuck(what string) {
+	mp := e.Cfg.File.MaxPages
+	if mp == 0 || e.Acked < e.FlushLo || e.F == nil {
+		return
+	}
+	bytes := len(e.Cur) + len(e.Rest)
+	for _, ev := range e.Events[e.FlushLo:] {
+		bytes += 4 + len(ev)
+	}
+	payload := e.Cfg.File.PageSize - 28
+	need := (bytes+payload-1)/payload + 1
+	if need > (mp-10)/2 {
+		return
+	}
+	s := e.F.VerifSnapshot()
+	size := "file"
+	if mp <= 32 {
+		size = "tiny-file"
+	}
+	e.violate("full/stuck-after-drain/"+size, "%s reports 'full' although every flushed event is ACKed and the %d buffered bytes need only %d of %d pages; the file holds %d data pages, its meta area has grown to %d pages (%d of them free), %d data pages are free",
+		what, bytes, need, mp, s.Stats.DataAllocated, s.MetaTotal, s.MetaAvail, e.availData())
+}
+
+func (e *Env) availData() uint {
+	s := e.F.VerifSnapshot()
+	a := s.DataAvail
+	if uint(s.DataEnd) < s.MaxPages {
+		a += s.MaxPages - uint(s.DataEnd)
+	}
+	return a
 }
 
 func chunks(b []byte, mode, pageSize int) [][]byte {
